@@ -28,13 +28,27 @@ from core import Exn, cstr, cbool, cz, copt, clist
 IMPORTS = "Model.Status Model.Response Model.CertSelect Model.IdpBuild Gen.AttrMaps"
 
 CLAIM = {
-    "text": "WORK IN PROGRESS: no theorem is proved yet (Props/C08.v does not exist); only the model Model/IdpBuild.v and its correspondence units exist.",
-    "note": "work in progress",
-    "technique": "machine-checked proof (Coq) + regenerated attribute maps + correspondence + end-to-end oracle",
+    "text": "Coq theorems (Props/C08.v, all closed) about an executable model of IdP build + SP read (Model/IdpBuild.v over Model/Response.v, Model/CertSelect.v and the attribute maps regenerated from /repo). TEXT level, for ALL strings: what ElementTree writes for character data is read back as the same string except that CR LF / CR arrive as LF (exactly that), attribute values are read back exactly (CR LF TAB included); the written forms contain no '<', no '>', (attributes) no double quote, and every '&' starts a reference the writer emitted. TREE level, for ALL well-formed trees of any depth: a one-pass XML reader (tokenizer + tree builder, defined in Gallina) satisfies parse(serialise t) = t (modulo that end-of-line rule), hence the structure read back - tags, nesting, attribute names - never depends on a text or attribute value; instantiated for the Issuer / NameID / AuthnContext / AttributeStatement the IdP builds, whose structure is a function of the SHAPE of the identity only, and IdP attributes -> XML text -> reader -> harvested attributes is the identity. ATTRIBUTES: str.strip only removes white space at the two ends; for any converters, every identity whose keys the converters know and report under different names is read by the SP as exactly the asserted values, in order, trimmed, under those names; over the shipped maps (kernel-checked on every run) every local name is reported under itself or one of 18 listed aliases, except emailAddress / upn under name_form unspecified (known finding). PIPELINE: for IdP and SP configured from each other's generated metadata, every identity, name-id, authn context, lifetime, in-response-to and every sign_response x sign_assertion x encrypt_assertion setting (arguments or configured defaults, SP with or without an encryption certificate) that satisfies C02's rule on the built message is accepted inside its validity window and name-id, attributes, in-response-to, issuer, authn context and session expiry read by the application equal what was asserted. Tie to the code on every run: unit-wise correspondence (escaping and reading vs ElementTree / defusedxml, serialiser and reader on generated and on raw-spliced documents, str.strip, Policy.get, from_local / to_local, the value-carrying XML of the built message, which elements are signed / encrypted, the whole IdP -> POST / Redirect / SOAP -> SP path) and an implementation-level oracle stating the property on every end-to-end run.",
+    "note": "Expects /repo + proposed_fix/C08-1.diff (sign the assertion when encryption was asked for but the SP has no encryption certificate); before it the statement is refuted (C08_roundtrip_before_fix_refuted) and the check alarms. Only TESTED, not proved: that the model equals the Python (correspondence, exhaustive only over the sign x sign x encrypt x requirement x certificate product and the map names), the stdlib XML parser / ElementTree themselves (the Gallina reader is compared with defusedxml on every run; comments, PIs, CDATA, DTDs, namespaces declarations, single-quoted attributes and mixed content are outside the modelled subset), bindings (C14), the stand-in tool, real cryptography (symbolic: a signature by the IdP's key verifies under the certificate in its metadata). Known findings: an empty eduPersonTargetedID value is read as a dictionary; emailAddress / upn are lost under name_form unspecified. Not covered: PEFIM / encrypted advice, encrypted attributes, name-ids built from userid + NameIDPolicy (C18), non-string identity values, encrypt_assertion_self_contained=False without sign_assertion (the IdP raises EncryptError: nothing is built). CR and C0 control characters in values are outside the listed value classes: run and counted, not asserted.",
+    "technique": "machine-checked proof (Coq: induction over arbitrary strings, trees, identities; kernel-decided regenerated tables) + correspondence with the running code + end-to-end oracle",
 }
-TRUSTED = []
-ASSUMPTIONS = []
-RULE = ""
+TRUSTED = [
+    "modelled by hand, agreement TESTED per run: ElementTree._escape_cdata/_escape_attrib/_serialize_xml (as flat per-character maps), an XML 1.0 reader for the element/attribute/text subset (compared with defusedxml.ElementTree.fromstring), attribute_converter.from_local/to_/to_local/ava_from/lcd_ava_from, Policy.get, Server.create_authn_response -> _authn_response -> Entity._response (who is signed / encrypted), Assertion.construct, AuthnResponse readers",
+    "harness/translate_c08.py (attribute maps, str.isspace table, constants) and the canonicalisation of real XML to prefix form (ns1: / xsi:) for comparison",
+    "symbolic cryptography and the stand-in xmlsec1 (harness/tools): a signature made with the IdP's key verifies under the certificate its generated metadata publishes; encryption for a certificate is opened by the holder of its key",
+    "str.lower is modelled on ASCII only; generated attribute names contain only non-ASCII characters that str.lower leaves alone",
+]
+ASSUMPTIONS = [
+    "setting (Proofs/IdpBuildFlow_lemmas.v): SP metadata store = the IdP's generated metadata; entity ids carry no surrounding white space; the certificate encrypted for is one the SP holds the key of; destination is one of the SP's endpoints for the binding (no valid_destination_regex, no conv_info); the request is outstanding or unsolicited responses are allowed; an authn class_ref or authority is given; IdP clock <= SP clock + slack, SP clock <= IdP clock + lifetime + slack and <= IssueInstant + 1 day + slack, session_not_on_or_after (if given) not passed",
+    "identity values, name-id and context strings are XML-legal (Char production) for the text theorems; exact value equality needs no CR; attribute NAMES are ElementTree-safe by construction (the tags are constants)",
+    "C08_attributes_exact: keys known to the IdP-side converter, reported under pairwise different local names, eduPersonTargetedID values non-empty (eptid_ok)",
+]
+RULE = ("exhaustive: sign_response x sign_assertion x encrypt_assertion x 8 SP requirement settings x SP with/without encryption certificate (each IdP/SP pair "
+        "answers all 8 flag settings in a row); 27 configured-default settings x 3 argument patterns; every local name of every shipped map per name format; "
+        "str.strip on all str.isspace code points and neighbours. Random (seeded): identities over map names in all spellings / aliases / names of other maps / "
+        "unknown names, values from XML-special, look-alike markup, quotes, CDATA end, entity-looking, non-ASCII incl. astral, padded, inner white space, 20000-char, "
+        "1500-valued, empty; NameID formats; contexts; 10 policy shapes; bindings POST/Redirect/SOAP; 6 signature x 6 digest algorithms; SP clock at window edges; "
+        "long-lived IdP/SP pools. Non-trivial = end-to-end case inside the statement, or string/tree with at least one character the writer must escape; distinct by content.")
 
 
 def regen(ctx):
@@ -1040,15 +1054,21 @@ def oracle(ctx, c, xml, got):
         ctx.count("e2e:attribute names not asserted (unmapped name equal to a wire name)")
         return
     gotd = dict((k, v) for k, v in ava)
+    # the two names the `unspecified` maps lose (known finding): not delivered, or - with allow_unknown_attributes -
+    # delivered under the claims URL instead of the local name; reported under their own key, then left out of the comparison
+    lost = [ik for ik in c["identity"] if (nf, ik.lower()) in KNOWN_LOST]
+    for ik in lost:
+        rk = DOCUMENTED_ALIASES.get((nf, ik.lower()), first_maps()[0][nf][ik.lower()])
+        if gotd.get(rk) != want.get(rk):
+            ctx.oracle_fail("name-lost:unspecified:%s" % ik.lower(), "attribute %r sent with name_form unspecified is not delivered by the SP under its name" % ik, replay)
+            want.pop(rk, None)
+            gotd.pop(rk, None)
+            gotd.pop("http://schemas.xmlsoap.org/claims/" + ik.lower(), None)
     for k in sorted(set(want) | set(gotd)):
         w, g = want.get(k), gotd.get(k)
         if w == g:
             continue
-        lost = [ik for ik in c["identity"] if (nf, ik.lower()) in (KNOWN_LOST)]
-        if g is None and lost and nf == NF_UNSPEC:
-            for ik in lost:
-                ctx.oracle_fail("name-lost:unspecified:%s" % ik.lower(), "attribute %r sent with name_form unspecified is not delivered by the SP" % ik, replay)
-        elif k == "eduPersonTargetedID" and w is not None and g is not None and len(w) == len(g) and all(
+        if k == "eduPersonTargetedID" and w is not None and g is not None and len(w) == len(g) and all(
                 x == y or (x == "" and isinstance(y, list)) for x, y in zip(w, g)):
             ctx.oracle_fail("eptid-empty-value", "an empty eduPersonTargetedID value is read as %r" % ([y for y in g if isinstance(y, list)][:1],), replay)
         else:
